@@ -86,6 +86,9 @@ def gen_src(rng, avoid_real_plugins=True):
         code = code[:2] + b'8D' + code[4:]
     asc = (ty + code + rng.choice([b'', b' ', b'  EXTRA', b'\0\0']))
     asc = rng.choice([asc.ljust(32, b' '), asc.ljust(32, b'\0'), (b' ' + asc).ljust(32, b' ')])[:32]
+    if avoid_real_plugins and asc[4:6].upper() == b'E5':
+        # the component is read from characters 4..5 of the final string (which may have been shifted by a leading blank)
+        asc = asc[:4] + b'8D' + asc[6:]
     callouts = None
     if rng.random() < 0.5:
         cs = [gen_callout(rng) for _ in range(rng.choice([0, 1, 1, 2, 3, 6]))]
